@@ -278,6 +278,9 @@ def check_C05(tier):
     # join on a numeric column whose type differs on the two sides (INT = REAL), values around 2^53 included
     engine_run(c, "numeric-join", "NumJoinMenu", lines="LinesNum", maxlines=3, maxfiles=1, joinsets="JoinSetsNum", tdefs=("numjoin",))
     engine_run(c, "join", "JoinMenu", lines="LinesJ", maxlines=4 if t else 3, maxfiles=1, tdefs=("plain", "knn") if t else ("plain",))
+    # a missing joined file / join column is an error (any LIMIT, any input); a DEFAULT of the joined table is for its rows, not for the NULL row of an OUTER JOIN
+    engine_run(c, "join-errors", "BadJoinMenu", lines="LinesJ", maxlines=1, maxfiles=1, tdefs=("plain",), invs=["TypeOK", "BatchRefinesSem"], props=())
+    engine_run(c, "join-default", "JoinMenu", lines="LinesJ", maxlines=2, maxfiles=1, tdefs=("udef",))
     # the pairs a LIMIT keeps are the first of the ordered pair list, also when WHERE / DISTINCT reject earlier partners of a line
     engine_run(c, "join-limit", "LimitJoinMenu", lines="LinesJ", maxlines=3 if t else 2, maxfiles=1, tdefs=("plain",))
     engine_sim(c, "join", "JoinMenu", lines="LinesJ", maxlines=8, num=1500 if t else 120, modes=("batch",))
@@ -357,7 +360,7 @@ def check_C06(tier):
     t = tier == "thorough"
     engine_run(c, "noise", "NoiseMenu", lines="LinesNoise", maxlines=4 if t else 3, maxfiles=1, modes=("batch", "incr"), tdefs=("plain", "knn", "vdef", "bothnn") if t else ("plain", "vdef", "bothnn"))
     engine_run(c, "noise-join", "JoinMenu", lines="LinesNoise", maxlines=2, maxfiles=1, tdefs=("plain", "knn"))
-    engine_run(c, "noise-default", "NoiseMenu", lines="LinesNoiseDefault", maxlines=3, maxfiles=1, modes=("batch", "incr"), tdefs=("vdef", "plain"))
+    engine_run(c, "noise-default", "NoiseMenu", lines="LinesNoiseDefault", maxlines=3, maxfiles=1, modes=("batch", "incr"), tdefs=("vdef", "plain", "nndef"))
     # a pattern anchored at both ends (^...$) and noise lines longer than the reader's buffers (8 KiB, 64 KiB) whose tail reads like a row
     engine_run(c, "noise-long", "CoreLimitMenu", lines="LinesNoiseLong", maxlines=3, maxfiles=2 if t else 1, modes=("batch", "incr"), tdefs=("anch",))
     laws_trace(c, 2 if t else 1, 300 if t else 100)
@@ -558,6 +561,8 @@ def check_C13(tier):
     expect_holds(r, "Grammar round trip (Parse(Min(t)) = t = Parse(Full(t)))"); c.add_tlc(r)
     rep = vh_replay("grammar", r.replay_path, "grammar")
     c.add_report(rep, reg("parser vs Grammar.tla (minimal vs full parentheses)", "grammar"))
+    # the same grouping judged by VALUES: statements written with the fewest parentheses, executed row by row (a regrouping made after parsing, in the lowering, shows only there)
+    engine_run(c, "precedence-values", "PrecMenu", lines="Lines4", maxlines=2, maxfiles=1, modes=("incr", "batch"), tdefs=("plain",))
     c.rule = ("TLC enumerates expression trees (all operators, <= 2 operator nodes, 3 nodes over one operator per precedence level and the 'low, tighter, low' shapes; thorough: 4 nodes over the representatives), checks on the reference grammar that the "
               "minimally parenthesised text parses back to the tree, and emits Min(t) and Full(t); the real parser must produce the same statement for Min(t) written with spaces, "
               "written without any optional whitespace, and for Full(t). Non-trivial = more than one token; distinct by Min(t).")
